@@ -472,9 +472,12 @@ class Owner(callbacks.Plugin):
             return
         callbacks = irc.removeCallback(name)
         if callbacks:
-            module = sys.modules[callbacks[0].__module__]
+            # A previous failed import may have removed the module from
+            # sys.modules.
+            module = sys.modules.get(callbacks[0].__module__)
             if hasattr(module, 'reload'):
                 x = module.reload()
+            died = False
             try:
                 module = plugin.loadPluginModule(name)
                 if hasattr(module, 'reload') and 'x' in locals():
@@ -482,6 +485,7 @@ class Owner(callbacks.Plugin):
                 if hasattr(module, 'config'):
                     from importlib import reload
                     reload(module.config)
+                died = True
                 for callback in callbacks:
                     callback.die()
                     del callback
@@ -492,6 +496,14 @@ class Owner(callbacks.Plugin):
                 for callback in callbacks:
                     irc.addCallback(callback)
                 irc.error('No plugin named %s exists.' % name)
+            except Exception:
+                if not died:
+                    # The new module could not be imported (syntax error,
+                    # ...) and the old callbacks are still intact: keep them
+                    # registered instead of losing the plugin.
+                    for callback in callbacks:
+                        irc.addCallback(callback)
+                raise
         else:
             irc.error('There was no plugin %s.' % name)
     reload = wrap(reload, ['something'])
